@@ -549,6 +549,9 @@ int main(int argc, char** argv)
     size_type nslots = argval<size_type>(kv, "slots", 8);
     int nevents = argval<int>(kv, "events", 3);
     int nprims = argval<int>(kv, "prims", 3);
+    // odd-numbered events get this many primaries instead (-1: same as prims): lets an event whose
+    // primaries overflow the initializer capacity be followed by a valid one on the same (reset) state
+    int primsalt = argval<int>(kv, "primsalt", -1);
     size_type initcap = argval<size_type>(kv, "initcap", 4096);
     double secfactor = argval<double>(kv, "secfactor", 3.0);
     std::string order = argval<std::string>(kv, "order", "none");
@@ -606,7 +609,7 @@ int main(int argc, char** argv)
     double const me = 0.5109989461;
     double total_w = 0;
     for (int e = 0; e < nevents; ++e)
-        for (int k = 0; k < nprims; ++k)
+        for (int k = 0, np = (primsalt >= 0 && e % 2 == 1) ? primsalt : nprims; k < np; ++k)
         {
             Primary p;
             int pt = ptype >= 0 ? ptype : int(rng() % 3);
